@@ -332,6 +332,47 @@ def _u2(shape: int, n: int):
     return True
 
 
+_SRC_SELECT = ("absent", [], ["d"], ["d", "e"])
+_SRC_RENAME = ("absent", {}, {"d": "x"})
+_SRC_MODE = ("absent", "by_position", "combinatorial")
+
+
+def _u2b(si: int, ri: int, mi: int, with_ctx: bool):
+    """the parser must hand over a source entry field by field: what the YAML says is what expansion gets
+    (an EMPTY select list selects no column; it is not 'no select')."""
+    from semantiva.configurations.load_pipeline_from_yaml import _parse_run_space_block
+    from vt.engine import assume
+
+    assume(0 <= si < len(_SRC_SELECT) and 0 <= ri < len(_SRC_RENAME) and 0 <= mi < len(_SRC_MODE))
+    csi, cri, cmi = next(i for i in range(len(_SRC_SELECT)) if si == i), next(i for i in range(len(_SRC_RENAME)) if ri == i), next(i for i in range(len(_SRC_MODE)) if mi == i)
+    src: Dict[str, Any] = {"format": "csv", "path": "f.csv"}
+    if _SRC_SELECT[csi] != "absent":
+        src["select"] = list(_SRC_SELECT[csi])
+    if _SRC_RENAME[cri] != "absent":
+        src["rename"] = dict(_SRC_RENAME[cri])
+    if _SRC_MODE[cmi] != "absent":
+        src["mode"] = _SRC_MODE[cmi]
+    block: Dict[str, Any] = {"mode": "by_position", "source": src}
+    if with_ctx:
+        block["context"] = {"a": [1, 2]}
+    raw = {"blocks": [block]}
+    cfg = _parse_run_space_block(raw, base_dir=None) if _accepts_base_dir() else _parse_run_space_block(raw)
+    got = cfg.blocks[0].source
+    if got is None:
+        return Fail("C08.U2b:source-dropped", "the block's source entry was dropped by the parser")
+    exp_select = None if _SRC_SELECT[csi] == "absent" else list(_SRC_SELECT[csi])
+    if got.select != exp_select:
+        return Fail("C08.U2b:select", "YAML says select=%r, parsed %r" % (exp_select, got.select))
+    exp_rename = {} if _SRC_RENAME[cri] == "absent" else dict(_SRC_RENAME[cri])
+    if dict(got.rename or {}) != exp_rename:
+        return Fail("C08.U2b:rename", "YAML says rename=%r, parsed %r" % (exp_rename, got.rename))
+    if _SRC_MODE[cmi] != "absent" and got.mode != _SRC_MODE[cmi]:
+        return Fail("C08.U2b:mode", "YAML says source mode %r, parsed %r" % (_SRC_MODE[cmi], got.mode))
+    if got.format != "csv" or not str(got.path).endswith("f.csv"):
+        return Fail("C08.U2b:format-path", "parsed format/path %r %r" % (got.format, got.path))
+    return True
+
+
 def _combos(big: bool):
     allc = [(si, ri) for si in range(len(_SELECTS)) for ri in range(len(_RENAMES))]
     if big:
@@ -361,5 +402,6 @@ def obligations(tier: str) -> List[Ob]:
         Ob("C08.P2", lambda p: _make_space(*p), _replay_space, params=[(True, ml, 12, False, 0, 0)], budget=900 if not big else 3000, per_path=60,
            bound="as P1 without source (inline lists of length 0..3), asserting drawn combinations <= max_runs + sum(lengths) + 1 whenever the max-runs error is raised",
            targets=["semantiva/execution/run_space.py:expand_run_space"], stubs=["counting itertools.product"]),
+        Ob("C08.U2b", lambda _p: _u2b, R(_u2b), budget=120, bound="source entry with select in {absent, [], [d], [d,e]}, rename in {absent, {}, {d:x}}, mode in {absent, by_position, combinatorial}, inline context present or not (symbolic selectors)", targets=["semantiva/configurations/load_pipeline_from_yaml.py:_parse_run_space_block"]),
         Ob("C08.U2", lambda _p: _u2, R(_u2), budget=120, bound="10 documented / malformed run_space mappings with a symbolic number", targets=["semantiva/configurations/load_pipeline_from_yaml.py:_parse_run_space_block"]),
     ]
